@@ -214,7 +214,7 @@ func (p *mkraccPure) exec(op string) string {
 			if upd == nil {
 				return "err:noupdate"
 			}
-			out := fmt.Sprintf("accept del=%s limit=%s allow=%s", b01(resp.Delete), mkraccCoins(upd.TransferLimit), p.allowStr(upd.AllowList))
+			out := fmt.Sprintf("accept del=%s limit=%s allow=%s", mkraccB01(resp.Delete), mkraccCoins(upd.TransferLimit), p.allowStr(upd.AllowList))
 			// what the authz keeper does with the response (authzHandler): delete or store Updated
 			if resp.Delete {
 				p.cur = nil
@@ -227,7 +227,7 @@ func (p *mkraccPure) exec(op string) string {
 	return "err:bad-op"
 }
 
-func b01(b bool) string {
+func mkraccB01(b bool) string {
 	if b {
 		return "1"
 	}
@@ -721,7 +721,7 @@ func (e *mkraccEnv) probe(ws []string) string {
 		}
 		return mkraccClass(err)
 	}
-	return "ok changed=" + b01(e.digest(ctx, caller) != before)
+	return "ok changed=" + mkraccB01(e.digest(ctx, caller) != before)
 }
 
 func (e *mkraccEnv) grantStr(ctx sdk.Context, from sdk.AccAddress) string {
@@ -991,7 +991,7 @@ func driveMkraccApp(t *testing.T, rng *RNG, n int, out *Out) {
 			}
 			circ := (o.name == "Cancel" || o.name == "Delete") && rng.Chance(30)
 			op := fmt.Sprintf("probe op=%s acc=%s mgr=%s gov=%s st=%s ty=%s ft=%s gc=%s ctl=%s dest=%s circ=%s",
-				o.name, JoinOr(acc, "+"), b01(mgr), b01(gov), st, ty, b01(ft), b01(gc), b01(ctl), dest, b01(circ))
+				o.name, JoinOr(acc, "+"), mkraccB01(mgr), mkraccB01(gov), st, ty, mkraccB01(ft), mkraccB01(gc), mkraccB01(ctl), dest, mkraccB01(circ))
 			if (o.name == "AddAccess" || o.name == "DeleteAccess") && !ctl && rng.Chance(35) {
 				// what accountControlsAllSupply looks at: recorded supply, caller's balance, coins in existence
 				rec := int64([]int{0, 0, 3, 50}[rng.Intn(4)])
@@ -1001,8 +1001,8 @@ func driveMkraccApp(t *testing.T, rng *RNG, n int, out *Out) {
 				}
 				sup := cbal + int64([]int{0, 0, 9, 40}[rng.Intn(4)])
 				fixed := rng.Bool()
-				op += fmt.Sprintf(" rec=%d cbal=%d sup=%d fixed=%s", rec, cbal, sup, b01(fixed))
-				out.Count(fmt.Sprintf("probe:supplyview rec=%d caller-has-all=%s", rec, b01(sup > 0 && cbal == sup)))
+				op += fmt.Sprintf(" rec=%d cbal=%d sup=%d fixed=%s", rec, cbal, sup, mkraccB01(fixed))
+				out.Count(fmt.Sprintf("probe:supplyview rec=%d caller-has-all=%s", rec, mkraccB01(sup > 0 && cbal == sup)))
 			}
 			r := emit(op)
 			cls := strings.Fields(r)[0]
@@ -1010,7 +1010,7 @@ func driveMkraccApp(t *testing.T, rng *RNG, n int, out *Out) {
 			out.Count("probe:res=" + cls)
 			out.Count("probe:st=" + st)
 			hasRight := o.right != "" && contains(acc, o.right)
-			out.Count(fmt.Sprintf("probe:cell=%s/%s/right=%s/mgr=%s/gov=%s/%s", o.name, st, b01(hasRight), b01(mgr), b01(gov), resClass(cls)))
+			out.Count(fmt.Sprintf("probe:cell=%s/%s/right=%s/mgr=%s/gov=%s/%s", o.name, st, mkraccB01(hasRight), mkraccB01(mgr), mkraccB01(gov), resClass(cls)))
 			continue
 		}
 		if rng.Chance(30) {
@@ -1075,9 +1075,9 @@ func driveMkraccApp(t *testing.T, rng *RNG, n int, out *Out) {
 			}
 			grant = lim + ";" + JoinOr(allow, "|")
 		}
-		emit(fmt.Sprintf("xsetup acc=%s st=%s ty=%s ft=%s src=%s grant=%s bal=%d", JoinOr(acc, "+"), st, ty, b01(ft), src, grant, bal))
+		emit(fmt.Sprintf("xsetup acc=%s st=%s ty=%s ft=%s src=%s grant=%s bal=%d", JoinOr(acc, "+"), st, ty, mkraccB01(ft), src, grant, bal))
 		out.Count("xfer:src=" + src)
-		out.Count("xfer:grant=" + b01(grant != "-") + "/allow=" + b01(len(allow) > 0) + "/ft=" + b01(ft))
+		out.Count("xfer:grant=" + mkraccB01(grant != "-") + "/allow=" + mkraccB01(len(allow) > 0) + "/ft=" + mkraccB01(ft))
 		steps := 1 + rng.Intn(5)
 		left := limit
 		okCount := 0
@@ -1203,7 +1203,7 @@ func (e *mkraccEnv) sweep(out *Out, emit func(string) string) int {
 										out.Comment(fmt.Sprintf("history %d", h))
 										h++
 										r := emit(fmt.Sprintf("probe op=%s acc=%s mgr=%s gov=%s st=%s ty=%s ft=%s gc=%s %s",
-											o.name, JoinOr(acc, "+"), b01(mgr), b01(gov), st, ty, b01(ft), b01(gc), ex))
+											o.name, JoinOr(acc, "+"), mkraccB01(mgr), mkraccB01(gov), st, ty, mkraccB01(ft), mkraccB01(gc), ex))
 										out.Count("sweep:probe")
 										out.Count("sweep:probe:res=" + resClass(r))
 									}
@@ -1247,7 +1247,7 @@ func (e *mkraccEnv) sweep(out *Out, emit func(string) string) int {
 									}
 									out.Comment(fmt.Sprintf("history %d", h))
 									h++
-									emit(fmt.Sprintf("xsetup acc=%s st=%s ty=%s ft=%s src=%s grant=%s bal=%d", acc, st, ty, b01(ft), src, grant, bal))
+									emit(fmt.Sprintf("xsetup acc=%s st=%s ty=%s ft=%s src=%s grant=%s bal=%d", acc, st, ty, mkraccB01(ft), src, grant, bal))
 									r := emit(fmt.Sprintf("xfer amt=%d to=%s", amt, to))
 									out.Count("sweep:xfer")
 									out.Count("sweep:xfer:res=" + resClass(r))
@@ -1284,8 +1284,8 @@ func mkraccGenScenario(rng *RNG, out *Out, emit func(string) string, e *mkraccEn
 			acc = append(acc, a)
 		}
 	}
-	emit(fmt.Sprintf("smk amt=%d fixed=%s ty=%s acc=%s", amt, b01(fixed), ty, strings.Join(acc, "+")))
-	out.Count(fmt.Sprintf("scn:create amt=%d fixed=%s", amt, b01(fixed)))
+	emit(fmt.Sprintf("smk amt=%d fixed=%s ty=%s acc=%s", amt, mkraccB01(fixed), ty, strings.Join(acc, "+")))
+	out.Count(fmt.Sprintf("scn:create amt=%d fixed=%s", amt, mkraccB01(fixed)))
 	actors := []string{"A", "B", "D", "E"}
 	steps := 4 + rng.Intn(6)
 	for i := 0; i < steps; i++ {
